@@ -311,8 +311,12 @@ def impl_pop(case):
                           file_name=_fname("p"), clear=True, verbose=False)
         except TypeError as e:
             return dict(raised="TypeError", msg=str(e)[:120])
-        cols = [(f"p{i}", k) for i, p in enumerate(case["pops"]) for k in range(len(p["x"]))]
-        vals = np.asarray(res[cols].values, dtype=np.float64)
+        blocks = []
+        for i, p in enumerate(case["pops"]):            # a one-unit population comes back as one plain column, larger ones as (name, unit)
+            cs = [c for c in res.columns if (c[0] if isinstance(c, tuple) else c) == f"p{i}"]
+            assert len(cs) == len(p["x"]), (list(res.columns), i)
+            blocks.append(np.asarray(res[cs].values, dtype=np.float64).reshape(len(res), len(cs)))
+        vals = np.concatenate(blocks, axis=1)
         return dict(rows=[[frac(v) for v in r] for r in vals])
     finally:
         pyr.reset_pyrates()
@@ -515,6 +519,11 @@ def gen_vec_model(rng, with_input, delay):
 def gen_pop_model(rng):
     val = lambda lo, hi, den=2: str(Fr(rng.randint(lo, hi), den))
     sizes = [rng.randint(2, 4), rng.randint(2, 4)]
+    r = rng.random()
+    if r < 0.45:            # one-unit populations: 1-row and 1-column coupling / weight matrices (raised before fix_D92 / D20 / D25)
+        sizes[rng.randrange(2)] = 1
+        if r < 0.12:
+            sizes = [1, 1]
     pops = [dict(x=[val(-4, 4) for _ in range(n)], eta=[val(-2, 2) for _ in range(n)], a=[val(-1, 3) for _ in range(n)]) for n in sizes]
     mat = lambda nt, ns: [[str(Fr(rng.choice([-2, -1, 0, 0, 1, 2, 3]), 2)) for _ in range(ns)] for _ in range(nt)]
     k = rng.choice([1, 2])
@@ -592,7 +601,7 @@ def generate(ctx):
         for b, vec in [("default", True), ("torch", True), ("jax", True), ("default", False), ("torch", False)] + ([("fortran", False)] if i < n_del_f else []):
             cases.append(dict(m, backend=b, solver="euler", vectorize=vec, ipv=True, precision="float64", mid=f"del{i}", nospec=True))
     # population circuits: matvec + coupling template (wsum / broadcast helpers)
-    for i in range(5 if q else 50):
+    for i in range(7 if q else 60):
         m = gen_pop_model(rng)
         for b in PY_BACKENDS:
             cases.append(dict(m, backend=b, mid=f"pop{i}"))
@@ -623,7 +632,7 @@ def nontrivial(case):
     if k == "net":
         return bool(case["edges"]) and any(sum(m[1:]) >= 2 for o in case["ops"].values() for m in o["px"] + o["pv"])
     if k == "pop":
-        return any(c["kind"] for c in case["conns"])
+        return any(c["kind"] for c in case["conns"]) and max(len(p["x"]) for p in case["pops"]) >= 2
     if k == "rollnet":
         return any(sh % case["n"] != 0 for sh in case["shifts"])
     if k == "traj":
